@@ -55,10 +55,10 @@ def line_coverage(functions, lines_hit, focus=None):
             for k in c.co_consts:
                 if hasattr(k, "co_code"):
                     stack.append(k)
-            if c.co_qualname in quals and c is not top:
+            if c.co_qualname in quals and c is not top and (c.co_flags & 0x1):        # functions only (CO_OPTIMIZED): no class bodies
                 ex = set(l for _, _, l in c.co_lines() if l is not None and l != c.co_firstlineno)
                 for k in c.co_consts:       # nested lambdas / comprehensions count with their parent
-                    if hasattr(k, "co_code") and k.co_qualname not in quals:
+                    if hasattr(k, "co_code") and k.co_qualname not in quals and k.co_name.startswith("<"):
                         ex |= set(l for _, _, l in k.co_lines() if l is not None)
                 hit = set(l for (mm, l) in lines_hit if mm == m and l in ex)
                 if not hit:
@@ -67,7 +67,7 @@ def line_coverage(functions, lines_hit, focus=None):
                 rec = {"executable": len(ex), "reached": len(hit)}
                 tot_e += len(ex)
                 tot_r += len(hit)
-                if (focus is None and len(ex - hit) <= 12) or (focus is not None and key in focus):
+                if (focus is None and len(ex - hit) <= 40) or (focus is not None and key in focus):
                     rec["not_reached"] = ["%d: %s" % (l, src_lines[l - 1].strip()[:110]) for l in sorted(ex - hit)][:60]
                 out["functions"][key] = rec
     out["total_executable"] = tot_e
